@@ -439,11 +439,13 @@ class PusTm(AbstractPusTm):
 
     @tm_data.setter
     def tm_data(self, data: bytes):
-        self._source_data = data
         stamp_len = len(self.pus_tm_sec_header.timestamp)
+        # The length is set first: it is refused if the data does not fit into a space packet,
+        # and the TM must not keep such data then
         self.space_packet_header.data_len = self.data_len_from_src_len_timestamp_len(
             stamp_len, len(data)
         )
+        self._source_data = data
 
     @property
     def apid(self):
